@@ -19,7 +19,10 @@ RULE = (
     "pydsdl.Constant; plus Hypothesis-drawn (type, rational) pairs around the boundaries with drawn spellings, and initialisers on "
     "types that cannot carry constants (void, arrays, utf8, byte, composites).  Oracle: exact ranges from the Specification formulas "
     "(Fractions); accept <=> right kind and in range; the stored value equals the initialiser's exact rational (never rounded), a "
-    "one-character ASCII string is accepted only for 8-bit unsigned integers and stored as its code point.  Non-trivial = value within 1 "
+    "one-character ASCII string is accepted only for 8-bit unsigned integers and stored as its code point (parts strings / strings-grid: every ASCII "
+    "character in raw and escaped spellings and both quotes; single non-ASCII characters stratified by the shape of their NFC / NFD mapping - including "
+    "the code points whose normal form is ASCII; ASCII base + combining mark; strings of 0 and 2..4 characters with none, one or several ASCII ones - "
+    "on 8-bit unsigned and on other types).  Non-trivial = value within 1 "
     "(or a relative 2**-50) of a range boundary, or a non-rational initialiser."
 )
 ASSUMPTIONS = ["ranges: [-2**(n-1), 2**(n-1)-1], [0, 2**n-1], +-(2 - 2**-m) * 2**emax with (m, emax) = (10, 15), (23, 127), (52, 1023)"]
@@ -67,6 +70,23 @@ def type_text(spec: typing.Any) -> str:
     raise ValueError(spec)
 
 
+def string_literal(text: str, style: int = 0) -> str:
+    """A DSDL spelling of the string: raw where possible or (style bit 0) escaped throughout; style bit 1 selects the quote."""
+    q = "\"" if style & 2 else "'"
+    out = []
+    for ch in text:
+        cp = ord(ch)
+        if ch in "'\"\\":
+            out.append("\\" + ch)
+        elif ch.isprintable() and not (style & 1 and cp > 127) and not (style & 4 and style & 1):
+            out.append(ch)
+        elif ch in "\r\n\t" and not style & 4:
+            out.append({"\r": "\\r", "\n": "\\n", "\t": "\\t"}[ch])
+        else:
+            out.append("\\u%04x" % cp if cp < 0x10000 and not style & 8 else "\\U%08X" % cp)
+    return q + "".join(out) + q
+
+
 def value_text(v: typing.Any, style: int = 0) -> str:
     """v: ["rat", p, q] | ["str", s] | ["bool", b] | ["set"]"""
     if v[0] == "rat":
@@ -77,8 +97,7 @@ def value_text(v: typing.Any, style: int = 0) -> str:
             return ("-" if p < 0 else "") + body
         return ("-" if p < 0 else "") + "%d/%d" % (a, q) if not style % 2 else ("-" if p < 0 else "") + "%d / %s" % (a, hex(q))
     if v[0] == "str":
-        s = v[1]
-        return "'" + s.replace("\\", "\\\\").replace("'", "\\'") + "'"
+        return string_literal(v[1], style)
     if v[0] == "bool":
         return "true" if v[1] else "false"
     if v[0] == "set":
@@ -249,6 +268,31 @@ def _random_cases() -> st.SearchStrategy:
     return st.sampled_from(all_types()).flatmap(with_value).flatmap(lambda c: st.integers(0, 7).map(lambda s: dict(c, style=s)))
 
 
+STRING_TYPES = [["uint", 8, "sat"], ["uint", 8, "trunc"], ["uint", 8, "sat"], ["uint", 7, "sat"], ["uint", 9, "sat"], ["uint", 16, "trunc"], ["uint", 64, "sat"],
+                ["int", 8], ["int", 16], ["float", 32, "sat"], ["bool"]]
+
+
+def _string_cases() -> st.SearchStrategy:
+    """String initialisers: accepted only as exactly one ASCII character on an 8-bit unsigned integer."""
+    from ..gen import expr as gexpr
+
+    ascii1 = st.integers(0, 127).map(chr)
+    pair = gexpr.nfc_pair()  # (code point, its other normal form): includes the mappings onto ASCII and the ASCII base + combining mark spellings
+    nonascii1 = st.one_of(pair.map(lambda t: t[0]), st.integers(128, 255).map(chr), st.characters(min_codepoint=256, blacklist_categories=("Cs",)))
+    piece = st.one_of(ascii1, nonascii1, pair.map(lambda t: t[1]))
+    several = st.lists(piece, min_size=2, max_size=4).map("".join)
+    one_ascii_among = st.tuples(ascii1, st.lists(nonascii1, min_size=1, max_size=3), st.integers(0, 3)).map(lambda t: "".join(t[1][: t[2]]) + t[0] + "".join(t[1][t[2] :]))
+    text = st.one_of(ascii1, ascii1, nonascii1, pair.map(lambda t: t[1]), several, one_ascii_among, st.just(""))
+    return st.tuples(st.sampled_from(STRING_TYPES), text, st.integers(0, 15)).map(lambda t: {"type": t[0], "value": ["str", t[1]], "style": t[2]})
+
+
+def _string_grid(ctx: Ctx) -> typing.Iterable[typing.Any]:
+    for cast in ("sat", "trunc"):
+        for cp in range(128):
+            for style in (0, 1, 7):
+                yield {"type": ["uint", 8, cast], "value": ["str", chr(cp)], "style": style}
+
+
 def parts(ctx: Ctx) -> typing.List[Part]:
     incapable = st.fixed_dictionaries(
         {
@@ -259,5 +303,7 @@ def parts(ctx: Ctx) -> typing.List[Part]:
     return [
         Part("grid", None, check_constant, weight=0, grid=_grid),
         Part("random", _random_cases(), check_constant, weight=4),
+        Part("strings", _string_cases(), check_constant, weight=2),
+        Part("strings-grid", None, check_constant, weight=0, grid=_string_grid),
         Part("incapable", incapable, check_incapable, weight=1, min_examples=10),
     ]
